@@ -84,6 +84,11 @@ type emitter struct {
 	// alreadyInitializedTemplatePkgs keeps track of the template packages for
 	// which the initialization code has already been emitted.
 	alreadyInitializedTemplatePkgs map[string]bool
+
+	// templateInits are the initialization functions of the template files
+	// imported by a template, in the order in which they have been emitted.
+	// They are called before any other code of the template is executed.
+	templateInits []*runtime.Function
 }
 
 // newEmitter returns a new emitter with the given type infos, format types,
